@@ -36,7 +36,7 @@ def plan(tier, seed):
         ["strings"],
     ]
     n_random = 2000 if tier == "quick" else 300000
-    return [{"types": g, "n_random": n_random} for g in groups]
+    return [{"types": g, "n_random": n_random} for g in groups] + [{"ambient": ["test/test_od.py", "test/test_sdo.py", "test/test_local.py", "test/test_eds.py"]}]
 
 
 def _var(dt):
@@ -55,6 +55,12 @@ def _try(fn, *a):
 
 def run(ctx, desc):
     oracles.install_codec(ctx)
+    if "ambient" in desc:
+        from canmon import ambient
+        n = ambient.run_tests(ctx, desc["ambient"])
+        ctx.sample({"workload": "ambient", "repo_tests_run_under_codec_contracts": n,
+                    "contract_evaluations": {k: v for k, v in ctx.monitors.items()}})
+        return
     rng = ctx.rng("c04")
     for dt in desc["types"]:
         if dt == "strings":
